@@ -149,6 +149,67 @@ class Ctx:
                                         'verdict': {k: (None if x is None else list(x)) for k, x in v.items()}})
         return out
 
+    def explore_dfs(self, driver, component, trace_module, scenario, family, bound=2, budget=4000, seed=0,
+                    nontrivial=None, known_match=None, wave_cap=None):
+        """Systematic schedule exploration of ONE scenario (stateless, CHESS-style): start from the
+        non-preemptive default schedule; every multi-choice decision of every executed schedule spawns the
+        alternatives, as long as the number of preemptions (switching away from a thread that could have
+        continued) stays within `bound`.  Waves are executed in parallel and validated by TLC.  When a wave
+        exceeds the remaining budget it is sampled (seeded); the evidence says whether the bound was
+        explored completely."""
+        import random as _r
+        rng = _r.Random(seed)
+        done = set()
+        frontier = [()]
+        total = 0
+        complete = True
+        waves = 0
+        while frontier and total < budget:
+            room = budget - total
+            if len(frontier) > room:
+                complete = False
+                frontier = rng.sample(frontier, room)
+            scs = []
+            for pre in frontier:
+                sc = dict(scenario)
+                sc['strategy'] = {'kind': 'replay', 'prefix': list(pre)}
+                scs.append(sc)
+            out = self.run_and_validate(driver, component, trace_module, scs, family, nontrivial=nontrivial,
+                                        known_match=known_match)
+            total += len(scs)
+            waves += 1
+            nxt = []
+            for (sc, r, v), pre in zip(out, frontier):
+                dec = r.get('decisions') or []
+                pre_n = len(pre)
+                # preemptions used so far along this schedule
+                used = 0
+                for i, d in enumerate(dec):
+                    opts, chosen, cur = d[0], d[1], d[2]
+                    pp = d[3] if len(d) > 3 else True
+                    if i >= pre_n:
+                        for alt in opts:
+                            if alt == chosen:
+                                continue
+                            preempt = cur is not None and cur in opts and alt != cur
+                            if preempt and not pp:
+                                continue      # preempt only before lines that touch shared state
+                            cost = used + (1 if preempt else 0)
+                            if cost > bound:
+                                continue
+                            child = tuple(d[1] for d in dec[:i]) + (alt,)
+                            if child not in done:
+                                done.add(child)
+                                nxt.append(child)
+                    if cur is not None and cur in opts and chosen != cur:
+                        used += 1
+            frontier = nxt
+        if frontier:
+            complete = False
+        fam = self.cov['families'].setdefault(family, {})
+        fam['dfs'] = {'preemption_bound': bound, 'schedules': total, 'waves': waves, 'bound_explored_completely': complete}
+        return total, complete
+
     def violation(self, prop, clause, idx, sc, r, family, driver, known_match=None, component=None, trace_module=None):
         kf = None
         for k in self.known.get('known', []):
